@@ -18,7 +18,7 @@ func init() { register(&Spec{ID: "C20", Targets: []load.Target{load.Linux}, Run:
 
 func runC20(c *core.Ctx) {
 	runFixtures(c, "drop")
-	c.Explain("Whether the conformance suite fails on each of ~60 deviant file systems is a statement about executions (mutation adequacy) and cannot be decided without running the suite, which this family may not do. Decided are properties of the suite's own code whose violation makes it blind: (R20.1) every exported scenario func Test*(testing.TB, FSOptions) of package fstest is registered in the FS or File runner; (R20.2) every exported internal/assert helper and every FSOptions.assert* method returning bool reports through tb.Error/Errorf/Fatal* (or a helper that does) on every path that returns false, and has at least one such path; (R20.3) mode comparisons keep all bits when Constraints.FileModeMask is its zero value ('disables checks on the specified bits, defaults to checking all'); (R20.4) the final-tree comparison is an equality, not a subset test; (R20.5) the skip data is collected after the parallel subtests have run; (R20.6) package fstest writes no package-level variable outside init (the verdict depends only on the FS under test); (R20.7) no subtest closure that goes parallel captures a loop variable that is one cell shared by all iterations under the module's language version (< go1.22) — such subtests all run against the last table row and the other rows are never checked; (R20.8) the helpers comparing an error with an expected *PathError/*LinkError type-assert the error value itself and do not search its chain with errors.As; (R20.9) the harness that runs tasks concurrently starts all goroutines before it waits (no WaitGroup.Wait inside the starting loop); (R20.10, contradiction rule) in every subtest closure, if the error of an operation of the library reaches an assertion on one path it does so on every path from the operation to the end of the subtest (skips excepted). The property itself (acceptance of the references, rejection of deviants) is (R20.11) no by-name listing is sorted before it is asserted on; (R20.12) errors.Is is applied in one direction, observed against expected; (R20.13) a subset assertion between two observed listings has its converse or a distinctness assertion. NOT claimed.")
+	c.Explain("Whether the conformance suite fails on each of ~60 deviant file systems is a statement about executions (mutation adequacy) and cannot be decided without running the suite, which this family may not do. Decided are properties of the suite's own code whose violation makes it blind: (R20.1) every exported scenario func Test*(testing.TB, FSOptions) of package fstest is registered in the FS or File runner; (R20.2) every exported internal/assert helper and every FSOptions.assert* method returning bool reports through tb.Error/Errorf/Fatal* (or a helper that does) on every path that returns false, and has at least one such path; (R20.3) mode comparisons keep all bits when Constraints.FileModeMask is its zero value ('disables checks on the specified bits, defaults to checking all'); (R20.4) the final-tree comparison is an equality, not a subset test; (R20.5) the skip data is collected after the parallel subtests have run; (R20.6) package fstest writes no package-level variable outside init (the verdict depends only on the FS under test); (R20.7) no subtest closure that goes parallel captures a loop variable that is one cell shared by all iterations under the module's language version (< go1.22) — such subtests all run against the last table row and the other rows are never checked; (R20.8) the helpers comparing an error with an expected *PathError/*LinkError type-assert the error value itself and do not search its chain with errors.As; (R20.9) the harness that runs tasks concurrently starts all goroutines before it waits (no WaitGroup.Wait inside the starting loop); (R20.10, contradiction rule) in every subtest closure, if the error of an operation of the library reaches an assertion on one path it does so on every path from the operation to the end of the subtest (skips excepted). The property itself (acceptance of the references, rejection of deviants) is (R20.11) no by-name listing is sorted before it is asserted on; (R20.12) errors.Is is applied in one direction, observed against expected; (R20.13) a subset assertion between two observed listings has its converse or a distinctness assertion. (R20.14) every return of the tree comparison follows the walk; (R20.15) every TestFile<Op> scenario reaches <Op> on a file handle. NOT claimed.")
 	c.Assume("testing.TB.Error/Errorf/Fatal/Fatalf/FailNow/Fail mark the test failed")
 	c.RuleDoc("R20.1", "every scenario is registered")
 	c.RuleDoc("R20.2", "assertion helpers can fail and always report")
